@@ -163,6 +163,7 @@ Lemma on_frame_begin_track cf (s : rstate) f :
   let '(s1, e) := on_frame_begin D cd cf s f in track (cn D s) e (cn D s1).
 Proof.
   unfold on_frame_begin. destruct (fb_is_ctl (f_op f)); [apply track_refl|].
+  destruct (failed (cn D s)) eqn:Hf0; [apply track_refl|].
   match goal with |- context [on_message_frame_begin D cf ?c ?m ?l] =>
     pose proof (on_message_frame_begin_track cf c m l) as H; destruct (on_message_frame_begin D cf c m l) as [[c1 m2] e] end.
   exact H.
